@@ -87,20 +87,24 @@ func c14Snapshot(cs []*c14Closer) (calls []int, finished []bool) {
 }
 
 type c14Case struct {
-	N       int   `json:"closers"`
-	Fail    int   `json:"failing_mask"`
-	Steps   int   `json:"body_steps"`
-	Slow    int   `json:"slow_closer"` // -1 none
-	Wired   bool  `json:"wired_by_real_start,omitempty"`
-	Both    bool  `json:"closers_are_runners_too,omitempty"`             // wired closers also implement ApplicationRunner
-	AppDep  int   `json:"closers_depend_on_app,omitempty"`               // wired closers hold the App itself: 1 directly, 2 through another component
-	Late    bool  `json:"named_after_the_app,omitempty"`                 // their names sort after the App's own component name (created after it)
-	OrdMask int   `json:"closers_with_an_order,omitempty"`               // bit i: closer i also implements Order() (Order = its index; a slow ordered closer must not hold the others back either)
-	Second  int   `json:"second_close,omitempty"`                        // 1: App.Close is called again after it returned, 2: a second App.Close overlaps the first
-	Claim   bool  `json:"user_scanner_claims_the_apps_fields,omitempty"` // a user tag scanner declares the App's closer / runner slices as wire points too
-	Zero    int   `json:"zero_size_closers,omitempty"`                   // mask: stateless closers of field-less types (one shared address)
-	Bound   int   `json:"preemption_bound"`
-	Script  []int `json:"schedule,omitempty"`
+	N       int  `json:"closers"`
+	Fail    int  `json:"failing_mask"`
+	Steps   int  `json:"body_steps"`
+	Slow    int  `json:"slow_closer"` // -1 none
+	Wired   bool `json:"wired_by_real_start,omitempty"`
+	Both    bool `json:"closers_are_runners_too,omitempty"`             // wired closers also implement ApplicationRunner
+	AppDep  int  `json:"closers_depend_on_app,omitempty"`               // wired closers hold the App itself: 1 directly, 2 through another component
+	Late    bool `json:"named_after_the_app,omitempty"`                 // their names sort after the App's own component name (created after it)
+	OrdMask int  `json:"closers_with_an_order,omitempty"`               // bit i: closer i also implements Order() (Order = its index; a slow ordered closer must not hold the others back either)
+	Second  int  `json:"second_close,omitempty"`                        // 1: App.Close is called again after it returned, 2: a second App.Close overlaps the first
+	Claim   bool `json:"user_scanner_claims_the_apps_fields,omitempty"` // a user tag scanner declares the App's closer / runner slices as wire points too
+	Zero    int  `json:"zero_size_closers,omitempty"`                   // mask: stateless closers of field-less types (one shared address)
+	// StartFails (wired): the start that wires the closers fails - 1: a runner returns an error (every
+	// closer was registered with the App before); 2: a component created after the App and the closers
+	// fails in its Init. Close after such a start still reaches every closer the App was given.
+	StartFails int   `json:"start_fails,omitempty"`
+	Bound      int   `json:"preemption_bound"`
+	Script     []int `json:"schedule,omitempty"`
 }
 
 func c14Gen(c *core.Ctx) func(yield func(c14Case) bool) {
@@ -137,6 +141,14 @@ func c14Gen(c *core.Ctx) func(yield func(c14Case) bool) {
 			}
 			if n >= 1 && !yield(c14Case{N: n, Fail: 0, Steps: 0, Slow: -1, Wired: true, Both: true, Bound: bound}) {
 				return
+			}
+			// Close after a start that failed
+			for sf := 1; sf <= 2 && n >= 1 && n <= 2; sf++ {
+				for _, both := range []bool{false, true} {
+					if !yield(c14Case{N: n, Fail: 0, Steps: 0, Slow: -1, Wired: true, Both: both, StartFails: sf, Bound: bound}) {
+						return
+					}
+				}
 			}
 			// a user tag scanner that (also) declares the App's own collection fields as injection points
 			if n >= 1 {
@@ -279,8 +291,39 @@ func c14Run(c *core.Ctx) {
 				}
 				anys = append(anys, sc)
 			}
+			switch cs.StartFails {
+			case 1:
+				anys = append(anys, &c14FailRunner{})
+			case 2:
+				anys = append(anys, &c14FailInit{})
+			}
 			a = app.NewApp()
-			if err := a.Run(app.SetComponents(anys...)); err != nil || len(a.CloserComponents) != cs.N {
+			if cs.StartFails != 0 {
+				err := a.Run(app.SetComponents(anys...))
+				if err == nil {
+					c.Report("C14/wiring/"+core.Hash(cs), "start-did-not-fail", "a start with a failing runner / failing component returned nil", cs)
+					return
+				}
+				if cs.StartFails == 1 && len(a.CloserComponents) != cs.N {
+					c.Report("C14/wiring/"+core.Hash(cs), "not-exactly-once", fmt.Sprintf("a runner failed after every component was created, but App.Close knows %d closers for %d registered ones", len(a.CloserComponents), cs.N), cs)
+					return
+				}
+				// what the App was given before the failure is what Close has to reach
+				var given []*c14Closer
+				for _, k := range closers {
+					for _, cc := range a.CloserComponents {
+						if c14Of(cc) == k {
+							given = append(given, k)
+							break
+						}
+					}
+				}
+				if len(given) != len(a.CloserComponents) {
+					c.Report("C14/wiring/"+core.Hash(cs), "not-exactly-once", fmt.Sprintf("after a failed start the App lists %d closers of which %d are distinct registered ones", len(a.CloserComponents), len(given)), cs)
+					return
+				}
+				closers = given
+			} else if err := a.Run(app.SetComponents(anys...)); err != nil || len(a.CloserComponents) != cs.N {
 				c.Report("C14/wiring/"+core.Hash(cs), "not-exactly-once", fmt.Sprintf("after a real start App.Close knows %d closers for %d registered ones (closers are runners too: %v, err=%v): a closer is missing (it can never be closed) or listed twice", len(a.CloserComponents), cs.N, cs.Both, err), cs)
 				return
 			}
@@ -317,7 +360,7 @@ func c14Run(c *core.Ctx) {
 			cc := cs
 			cc.Script = e.Script
 			key := func(kind string) string {
-				return "C14/" + kind + "/" + core.Hash(cs.N, cs.Fail, cs.Steps, cs.Slow, cs.Wired, cs.AppDep, cs.Late, cs.Claim, cs.Second, cs.OrdMask)
+				return "C14/" + kind + "/" + core.Hash(cs.N, cs.Fail, cs.Steps, cs.Slow, cs.Wired, cs.AppDep, cs.Late, cs.Claim, cs.Second, cs.OrdMask, cs.StartFails)
 			}
 			switch {
 			case e.Deadlock:
@@ -383,6 +426,39 @@ func c14Run(c *core.Ctx) {
 		}
 		c.Sample(map[string]any{"config": cs, "schedules": st.Execs, "scheduling_points": st.Points, "all_interleavings": cs.Bound >= 99, "max_choice_points_in_one_schedule": st.MaxPoints})
 	})
+}
+
+type c14FailRunner struct{}
+
+func (*c14FailRunner) Naming() string { return "zzz-failing-runner" }
+func (*c14FailRunner) Run() error     { return errors.New("runner fails") }
+
+type c14FailInit struct{}
+
+func (*c14FailInit) Naming() string { return "zzz-failing-init" }
+func (*c14FailInit) Init() error    { return errors.New("init fails") }
+
+// c14Of: the counter behind a wired closer component.
+func c14Of(cc definition.CloserComponent) *c14Closer {
+	switch x := cc.(type) {
+	case *c14Closer:
+		return x
+	case *c14Named:
+		return x.c14Closer
+	case *c14RunCloser:
+		return x.c14Closer
+	case *c14AppCloser:
+		return x.c14Closer
+	case *c14AppRunCloser:
+		return x.c14Closer
+	case *c14ViaCloser:
+		return x.c14Closer
+	case *c14ViaRunCloser:
+		return x.c14Closer
+	case *c14Ordered:
+		return x.c14Closer
+	}
+	return nil
 }
 
 // c14Named gives a closer a component name for the real start.
